@@ -423,6 +423,46 @@ def run(ctx):
                        f'earlier iteration already gave to another label is taken again, so that '
                        f'label ends below its target count', f'{raf.module.relpath}:{n.lineno}')
     ctx.floor('R20f', 'label-assignment sites', n_sites, 2)
+    # ---- R20j: candidates are priced like the model prices itself ---------------------------
+    # _compute_cost fills entry (i, j) = theta_in[i] * share[j] * cost_fn(spec i, j) for EVERY
+    # pair: an entry skipped under a threshold on the share is priced 0 by the refinement but
+    # not by get_cost, so an under-estimated candidate can win and the real cost goes up
+    cc = repo.fn('mps.utils._compute_cost')
+    n_price = 0
+    skipped = []
+    for p in returning(paths(repo, cc)):
+        inner = [e for e in p.events if sum(1 for c in e.ctx if c and c[0] == 'loop') >= 2]
+        if not inner:
+            continue
+        stores = [e for e in inner if e.kind == 'setitem' and
+                  mentions(e.data[2], lambda y: y[0] == 'call' and y[1][0] == 'sub' and
+                           y[1][1] == ('param', cc.params[3]))]
+        if stores:
+            n_price += 1
+            v = stores[0].data[2]
+            share = [x for x in subterms(v) if x[0] == 'sub' and x[1][0] == 'elem' and
+                     mentions(x[1], lambda y: y == ('param', cc.params[2]))]
+            ok = bool(share)
+            ctx.ob('R20j', '_compute_cost entry = theta_in x share x cost_fn', ok,
+                   'each entry weighted by the candidate share of its precision' if ok else
+                   f'entry is {short(v, 120)}: not weighted by the candidate share',
+                   where(cc, stores[0].node))
+        else:
+            conds = [(e.data[0], e.data[1]) for e in inner if e.kind == 'assume']
+            zero_only = conds and all(
+                a[0] == 'cmp' and a[1] in ('==', '!=') and ('const', 0) in (a[2], a[3])
+                for a, _ in conds)
+            if not zero_only:
+                skipped.append((conds, inner[0]))
+    ctx.floor('R20j', 'pricing paths of _compute_cost', n_price, 1)
+    ctx.ob('R20j', '_compute_cost prices every (input precision, weight precision) pair',
+           not skipped,
+           'no entry of the configuration cost is skipped' if not skipped else
+           f'an entry is left at 0 when {[(short(a, 70), v) for a, v in skipped[0][0]][:2]}: the '
+           f'refinement prices such a precision at 0 while get_cost charges it (the share is '
+           f'measured over all channels, the threshold over the unpruned ones), so an '
+           f'under-estimated candidate wins and the cost of the returned model is higher',
+           where(cc, skipped[0][1].node) if skipped else where(cc))
     # ---- R20i: the cost model the refinement minimises is monotone for FRACTIONAL shares ---
     # candidates are priced with float-accumulated shares (k/C - eps): "never raises the cost"
     # needs the NE16 model to be non-decreasing in real-valued channel counts (C16's analysis of
